@@ -319,6 +319,8 @@ func checkC05(w *World, r *Report) {
 	// the reader looks constructors up in an environment other evaluations may be writing: an unlocked read of
 	// the environment's map is not an error value but a fatal "concurrent map read and map write"
 	scannerErrorRule(w, r, "C05.scanner-errors")
+	// a stack exhausted by unbounded recursion is a fatal error of the process, not a panic a barrier stops
+	printDescendsRule(w, r, "C05.print-descends")
 	r.rule("C05.env-lock", "every access to Env.data reachable by the reader holds that environment's lock (shared with C11.data): the lock-free *NT methods are only called with the lock held")
 	guardRule(w, r, e, "C05.env-lock", w.guardRows()[2])
 	r.floor("C05.env-lock", "accesses to Env.data and calls of lock-required methods", r.count("C05.env-lock"), 10)
